@@ -298,7 +298,7 @@ void retirer_role(World& w, int me) {
     }
     if (c.across && first_seq >= threshold) {
       vf::set_op("wait-gate");
-      while (w.across_open.load(std::memory_order_relaxed) < c.across && !w.fatal.load(std::memory_order_relaxed)) ::sched_yield();
+      while (w.across_open.load(std::memory_order_relaxed) < c.across && !w.fatal.load(std::memory_order_relaxed)) vf::raw_sleep_us(20);
     }
     bool explicit_epoch = n > 1 || rng.chance(uint64_t(c.explicit_pct), 300);
     std::vector<SnapItem> snap;
@@ -348,7 +348,7 @@ void holder_role(World& w, int me, int holder_index) {
   if (across_holder) {
     // open shortly before the last gate_j retires, keep open across the call of stop()
     vf::set_op("wait-for-gate-position");
-    while (w.retired_done.load(std::memory_order_relaxed) + uint64_t(c.gate_j) < total && !w.fatal.load(std::memory_order_relaxed)) ::sched_yield();
+    while (w.retired_done.load(std::memory_order_relaxed) + uint64_t(c.gate_j) < total && !w.fatal.load(std::memory_order_relaxed)) vf::raw_sleep_us(50);
     uint64_t s = ro.open();
     w.across_open.fetch_add(1, std::memory_order_relaxed);
     VF_COUNT("obs:region_open_across_stop");
